@@ -159,7 +159,7 @@ pub fn run_scenario(cfg: &Cfg) -> RunStat {
     let cur2 = cur.clone();
     let abort2 = abort.clone();
     let seed = cfg.seed.wrapping_add(tid as u64 * 7919);
-    joins.push(ctl.spawn(tid, gen_, move || run_role(tid, role, ctl2, cur2, abort2, seed)));
+    joins.push(ctl.spawn(tid, gen_, move || { hist::join(gen_); run_role(tid, role, ctl2, cur2, abort2, seed) }));
   }
 
   let outcome = ctl.run(Duration::from_secs(30));
